@@ -826,7 +826,22 @@ class StatsCtx(FsmCtx):
         if self.cfg.get("handler_faults") and rng.chance(0.04):
             return ["hfail", rng.randrange(1, 4)]
         if w.state() == "ESTABLISHED" and self.cfg.get("p_rest_send") and rng.chance(0.04):
-            return ["hqueue", rng.pick(["notification", "update"]), rng.randrange(1, 9)]
+            return ["hqueue", rng.pick(["notification", "update", "update", "bad_update"]), rng.randrange(1, 9)]
+        if w.state() == "ESTABLISHED" and rng.chance(0.06):
+            # one harmless message delivered in several TCP segments (cuts inside and behind the header)
+            k = self.cur_k()
+            if k is not None and w.live_conns()[k].readable():
+                as4 = bool(getattr(w.factory.fsm.protocol, "fourbytesas", False))
+                msg = rng.pick([rp.encode_keepalive(), base.gen_update(rng, self.cfg, as4), base.gen_update(rng, self.cfg, as4),
+                                rp.encode_route_refresh(1, 1), rp.encode_route_refresh(1, 1, 0, cisco=True)])
+                cuts = sorted(set(rng.randrange(1, len(msg)) for _ in range(rng.randrange(1, 4))))
+                self.stats["gen:message_in_several_segments"] += 1
+                return ["send", k, msg.hex(), cuts]
+        if w.state() == "ESTABLISHED" and self.cfg.get("p_rest_send") and rng.chance(0.03):
+            # json_to_bin only converts: nothing is sent, nothing may be counted
+            from sim.profiles import restapi
+            self.stats["gen:json_to_bin_request"] += 1
+            return ["rest", "POST", URL + "json_to_bin", "ok", restapi.RestCtx.body_for(self, rng, "json_to_bin")]
         if w.state() == "ESTABLISHED" and rng.chance(self.cfg.get("p_rest_send", 0)):
             # operator-originated messages: sent counters must follow them too
             from sim.profiles import restapi
